@@ -21,14 +21,16 @@ ID = "C06"
 LEVEL = "exploration"
 TECHNIQUE = "generated operation histories (Hypothesis) over several scenarios/managers sharing a base model vs per-scenario Euler reference (shadow settings map)"
 RULE = ("cases = (base stock/flow model with graphical functions, list of ops in {register scenario, run, session [begin settings, "
-        "steps, per-step settings], REST /run with settings, edit scenario constants/points, reset cache, evaluate base model}); after "
-        "each read the scenario's values must equal the reference with exactly its own settings, and a final sweep reads every scenario "
+        "steps, per-step settings], REST /run with settings (constants, points and partial run specs incl. start 0), registration with run specs, "
+        "edit scenario constants/points, reset cache, evaluate base model}); after "
+        "each read the scenario's values must equal the reference with exactly its own settings on its own time grid, and a final sweep reads every scenario "
         "and the base model. non-trivial = a write to scenario X is followed by a read of a scenario Y != X or of the base model; "
         "distinct by case")
 ASSUMPTIONS = [
     "a scenario that received per-step settings is 'dirty': its own later results are not asserted (persistence of step settings on the same scenario is not a leak), it still acts as a writer",
     "manager names are never reused with a different model (ScenarioManagerSd documents that re-registration keeps the old model)",
-    "sessions are started with the scenario's own start time and dt",
+    "sessions are started with the scenario's own start time and dt; scenarios that carry run specs of their own are read by batch runs and REST /run only",
+    "generated run specs are completed by a stop time when the grid would otherwise be empty or ragged (start >= stop, (stop-start)/dt not integral)",
     "a direct edit of scenario.constants / scenario.points is followed by reset_scenario_cache (as the REST /run handler does)",
 ]
 
@@ -48,6 +50,33 @@ def _with_base(base, settings):
     p = dict(base.get("points", {}))
     p.update(settings.get("points", {}))
     return c, p
+
+
+def _abs_for(abstract, rs):
+    """the abstract model on the run specs a scenario carries (missing ones are the model's)"""
+    from decimal import Decimal
+    if not rs:
+        return abstract
+    start = Decimal(str(rs["starttime"])) if "starttime" in rs else Decimal(abstract["start"])
+    dt = Decimal(str(rs["dt"])) if "dt" in rs else Decimal(abstract["dt"])
+    stop = Decimal(str(rs["stoptime"])) if "stoptime" in rs else Decimal(abstract["start"]) + abstract["n"] * Decimal(abstract["dt"])
+    a = dict(abstract)
+    a["start"], a["dt"], a["n"] = str(start.normalize() + 0), str(dt), int((stop - start) / dt)
+    return a
+
+
+def _norm_rs(abstract, cur, new):
+    """run specs actually sent: the generated partial ones, completed by a stop time when the grid would be empty or ragged"""
+    from decimal import Decimal
+    out = dict(new)
+    merged = dict(cur)
+    merged.update(out)
+    a = _abs_for(abstract, merged) if True else None
+    start, dt = Decimal(a["start"]), Decimal(a["dt"])
+    stop = Decimal(str(merged["stoptime"])) if "stoptime" in merged else Decimal(abstract["start"]) + abstract["n"] * Decimal(abstract["dt"])
+    if stop <= start or (stop - start) / dt != int((stop - start) / dt):
+        out["stoptime"] = float(start + 3)
+    return out
 
 
 def check_case(case):
@@ -74,10 +103,14 @@ def check_case(case):
 
     def ref_for(key):
         c, p = _eff(shadow, key)
-        k = json.dumps([c, p], sort_keys=True)
+        rs = shadow[key].get("rs", {})
+        k = json.dumps([c, p, rs], sort_keys=True)
         if k not in refcache:
-            refcache[k] = SM.RefModel(abstract, constants=c, points=p, limit=1e9).run()
+            refcache[k] = SM.RefModel(_abs_for(abstract, rs), constants=c, points=p, limit=1e9).run()
         return refcache[k]
+
+    def grid_for(key):
+        return grid if key is None or not shadow[key].get("rs") else SM.grid(_abs_for(abstract, shadow[key]["rs"]))
 
     def compare(what, key, got, opno, op):
         """got: name -> list aligned with grid"""
@@ -86,6 +119,7 @@ def check_case(case):
         except E.Fragile:
             return True
         scale = SM.model_scale(ref)
+        grid = grid_for(key)
         if any(w != key for w in writes):
             info["nontrivial"] = True
         for nm in names:
@@ -111,7 +145,7 @@ def check_case(case):
         if not isinstance(res, dict) or "msg" in res or idx >= len(grid):
             return True
         for key in keys:
-            if key not in shadow or shadow[key]["dirty"]:
+            if key not in shadow or shadow[key]["dirty"] or shadow[key].get("rs"):
                 continue
             m_, s_ = key
             try:
@@ -165,9 +199,14 @@ def check_case(case):
                     key = (m, s)
                     if key in shadow:
                         continue
+                    settings = dict(settings)
+                    if "runspecs" in settings:
+                        settings["runspecs"] = _norm_rs(abstract, {}, settings["runspecs"])
                     b.register_scenarios({s: json.loads(json.dumps(settings))}, m)
                     ec, ep = _with_base(bases.get(m, {}), settings)
-                    shadow[key] = {"constants": ec, "points": ep, "dirty": False}
+                    shadow[key] = {"constants": ec, "points": ep, "dirty": False, "rs": dict(settings.get("runspecs", {}))}
+                    if shadow[key]["rs"]:
+                        info["runspecs"] = True
                     if settings:
                         writes.append(key)
                         lastwrite[key] = "register"
@@ -179,7 +218,8 @@ def check_case(case):
                 if kind == "msession":
                     _, mgrs, scns, begin, steps = op
                     keys = [(m_, s_) for m_ in mgrs for s_ in scns if (m_, s_) in shadow]
-                    if not keys:
+                    if not keys or any(shadow[k_].get("rs") for k_ in keys):
+                        # a session has one start time and dt; scenarios that carry their own run specs are read by batch runs only
                         continue
                     b.begin_session(scenarios=list(scns), scenario_managers=list(mgrs), equations=names, settings=json.loads(json.dumps(begin)),
                                     starttime=grid[0], dt=float(abstract["dt"]))
@@ -228,13 +268,17 @@ def check_case(case):
                     writes.append(key)
                     lastwrite[key] = "edit-" + what
                 elif kind == "rest_run":
-                    settings = op[3]
+                    settings = dict(op[3])
+                    if "runspecs" in settings:
+                        settings["runspecs"] = _norm_rs(abstract, shadow[key]["rs"], settings["runspecs"])
+                        shadow[key]["rs"].update(settings["runspecs"])
+                        info["runspecs"] = True
                     resp = client.post("/run", json={"scenario_managers": [m], "scenarios": [s], "equations": names,
                                                      "settings": {m: {s: settings}}})
                     shadow[key]["constants"].update(settings.get("constants", {}))
                     shadow[key]["points"].update(settings.get("points", {}))
                     writes.append(key)
-                    lastwrite[key] = "rest-run-settings"
+                    lastwrite[key] = "rest-run-settings" + ("+runspecs" if "runspecs" in settings else "")
                     if resp.status_code == 200 and not shadow[key]["dirty"]:
                         res = json.loads(resp.data)
                         got = {nm: [float(v) for v in res[m][s]["equations"][nm].values()] for nm in names}
@@ -242,6 +286,8 @@ def check_case(case):
                             break
                 elif kind == "session":
                     _, _, _, settings, steps = op
+                    if shadow[key].get("rs"):
+                        continue
                     b.begin_session(scenarios=[s], scenario_managers=[m], equations=names, settings={m: {s: json.loads(json.dumps(settings))}},
                                     starttime=grid[0], dt=float(abstract["dt"]))
                     shadow[key]["constants"].update(settings.get("constants", {}))
@@ -303,6 +349,17 @@ def case_strategy():
                 xs = sorted(draw(st.lists(st.sampled_from([-1.0, 0.0, 1.0, 2.0, 4.0, 8.0]), min_size=k, max_size=k, unique=True)))
                 out["points"] = {draw(st.sampled_from(gfs)): [[x, draw(st.sampled_from([0.0, 1.0, 3.0, 5.0, -2.0]))] for x in xs]}
             return out
+
+        def runspecs():
+            which = draw(st.sampled_from([["starttime"], ["stoptime"], ["dt"], ["starttime", "stoptime"], ["starttime", "stoptime", "dt"], ["starttime", "dt"]]))
+            out = {}
+            if "starttime" in which:
+                out["starttime"] = draw(st.sampled_from([0, 0.0, 1.0, 2.0, 0]))
+            if "stoptime" in which:
+                out["stoptime"] = float(out.get("starttime", int(model["start"])) + draw(st.integers(2, 5)))
+            if "dt" in which:
+                out["dt"] = draw(st.sampled_from([1.0, 0.5, 0.25]))
+            return out
         ms = st.sampled_from(MANAGERS)
         ss = st.sampled_from(SCENARIOS)
         bases = {m: (settings() if draw(st.booleans()) else {}) for m in MANAGERS}
@@ -313,7 +370,10 @@ def case_strategy():
         for _ in range(draw(st.integers(2, 10))):
             k = draw(st.sampled_from(["register", "run", "run", "session", "rest_run", "edit", "reset", "base", "session", "msession", "msession"]))
             if k == "register":
-                ops.append(["register", draw(ms), draw(ss), settings()])
+                st_ = settings()
+                if draw(st.integers(0, 3)) == 0:
+                    st_["runspecs"] = runspecs()
+                ops.append(["register", draw(ms), draw(ss), st_])
             elif k == "run":
                 ops.append(["run", draw(ms), draw(ss)])
             elif k == "reset":
@@ -338,7 +398,10 @@ def case_strategy():
                     steps.append({draw(st.sampled_from(mgrs)): {draw(st.sampled_from(scns)): settings(False)}} if draw(st.integers(0, 3)) == 0 else {})
                 ops.append(["msession", mgrs, scns, begin, steps])
             elif k == "rest_run":
-                ops.append(["rest_run", draw(ms), draw(ss), settings(False)])
+                st_ = settings(False)
+                if draw(st.integers(0, 2)) == 0:
+                    st_["runspecs"] = runspecs()
+                ops.append(["rest_run", draw(ms), draw(ss), st_])
             else:
                 nsteps = draw(st.integers(1, 4))
                 steps = [(settings(False) if draw(st.integers(0, 2)) == 0 else {}) for _ in range(nsteps)]
@@ -355,7 +418,7 @@ def _body(ctx):
             return
         kinds = sorted(set(op[0] for op in case["ops"]))
         ctx.case({"ops": case["ops"], "model": SM.sym_show(c04.to_abstract(case["model"]))}, nontrivial=info["nontrivial"],
-                 labels=["op:" + k for k in kinds], key=case)
+                 labels=["op:" + k for k in kinds] + (["runspecs-written"] if info.get("runspecs") else []), key=case)
         ctx.report(vs)
     return body
 
